@@ -17,8 +17,18 @@
  *     contract stubs (stubs/c01p_stubs.c, --replace-calls; their own _dbus_asserts are the stubs' preconditions);
  *     _dbus_type_get_alignment, dbus_type_is_valid, dbus_type_is_fixed are the REAL loop-free code, inlined.
  *
+ * Case split (tool/units/c01p.py): the proof runs as five units C01.p.body.fixed/.string/.array/.variant/.struct with the SAME
+ * harness, contracts and stubs; in unit k the stub of _dbus_type_reader_get_current_type additionally assumes that the code it
+ * returns for the reader under contract lies in class k (or is INVALID).  An execution of the loop-contract-transformed function
+ * evaluates that call at most once (base case: not at all; arbitrary iteration and loop exit: once, at the loop head;
+ * _Static_assert on VERIF_HEAD_CALLS guards this syntactically), so the five units together cover every execution provided
+ * the classes cover all type codes: obligation "cases.cover" in every unit.  Without the split (VERIF_CASE_ID 0, not
+ * registered as a unit) the same harness is green in 17 min on an idle machine and 32 min
+ * under load (1.6 M variables, 12.6 M clauses, one 13-minute UNSAT call); the five parts take 4.5 - 8 min each.
+ *
  * What is readable / addressable: ONE heap object of exactly off + len + VERIF_TAIL bytes (VERIF_TAIL = 7); p = object + off,
- * end = p + len, 0 <= off, len <= _DBUS_STRING_MAX_LENGTH (2^31 - 9; the 128 MiB message limit is far inside).  p starts at an
+ * end = p + len, 0 <= len <= _DBUS_STRING_MAX_LENGTH (2^31 - 9; the 128 MiB message limit is far inside), 0 <= off, off + len <=
+ * 2^32 (a bound on the offset of `end`, so that the precondition is closed under the recursion).  p starts at an
  * arbitrary offset, so every alignment residue of p is covered (CBMC encodes a pointer as object-id . offset;
  * _DBUS_ALIGN_ADDRESS therefore aligns the offset, i.e. the object base counts as 8-aligned, which is what malloc and the
  * DBusString representation guarantee).
